@@ -56,10 +56,12 @@ PROPERTIES = {
               "for KPoints, Occupations and Atoms, proved for every public setter and helper by symbolic execution of the real method bodies "
               "(callee contracts at the Atoms level); by induction this covers every mutation history of any length. Persistence of trs / set_k / "
               "recenter through build() is proved separately. Two genuine defects are recorded as known findings (explicit fillings and "
-              "negative magnetisation are lost by a rebuild). SCF-level members are not covered yet.",
+              "negative magnetisation are lost by a rebuild). SCF level (contracts/c19_scf.py): after SCF.pot / xc / atoms / pot_params / recenter the potential "
+              "data (pot, psp, gth, Vloc) are what the real pot setter computes from the current atoms, functional type and parameters (GTH default family, "
+              "all-electron potential, user-given pseudopotential path).",
         note="un-modelled computations are uninterpreted deterministic functions of the values they read; no aliasing between arrays of different "
              "objects; bandpath taken by its C15 contract (exactly max(Nk, N_special) points); z3 and the in-house symbolic executor trusted (canary on every run)",
-        modules=["contracts.c19"],
+        modules=["contracts.c19", "contracts.c19_scf"],
         level="proof",
         trusted_base=["ast (parser)", "in-house AST->z3 symbolic executor (engine Z, pycv/wp)", "z3 5.1"],
         assumptions=["every computation the engine does not interpret (numpy calls, arithmetic on arrays, summarised loops) is a "
